@@ -3,6 +3,7 @@
 _OVERLAY = {
     "internal/rules/mechanisms/finalizers/zz_verif_c16_test.go": "c16/c16_test.go",
     "internal/rules/mechanisms/finalizers/zz_verif_c16_conc_test.go": "c16/c16_conc_test.go",
+    "internal/rules/mechanisms/finalizers/zz_verif_c16_sched_test.go": "c16/c16_sched_test.go",
     "internal/handler/management/zz_verif_c16_export.go": "c16/management_export.go",
     "internal/keyholder/zz_verif_c16_export.go": "c16/keyholder_export.go",
 }
@@ -16,17 +17,21 @@ _FIXED_F1, _FIXED_F2 = True, True
 if _os.environ.get("VERIF_C16_FIXED"):
     _v = _os.environ["VERIF_C16_FIXED"] + "00"
     _FIXED_F1, _FIXED_F2 = _v[0] == "1", _v[1] == "1"
-_CHECK = "check (FX %s %s)" % (str(_FIXED_F1).lower(), str(_FIXED_F2).lower())
+_FX = "(FX %s %s)" % (str(_FIXED_F1).lower(), str(_FIXED_F2).lower())
+_CHECK = "check " + _FX
 
 P = {
     "id": "C16",
     "claimed": True,
-    "coq_targets": ["Properties/C16.vo", "Run/Eval_C16.vo"],
+    "coq_targets": ["Properties/C16.vo", "Run/Eval_C16.vo", "Run/Eval_C16Conc.vo"],
     "theorems_module": "Properties.C16",
     "theorems": ["C16_system_claims_win", "C16_exp_is_ttl_later", "C16_load_never_panics",
                  "C16_header_names_active_key", "C16_token_verifies_against_published", "C16_jwks_public_only",
                  "C16_run_meets_spec", "C16_run_meets_property", "C16_run_meets_spec_pinned", "C16_F1_pinned_refuted", "C16_F2_pinned_refuted", "C16_variant_overlays_catalogue", "C16_variant_token", "C16_nonvacuous",
-                 "C16_consistent_pair", "C16_sign_sees_one_load", "C16_torn_skeleton_refuted"],
+                 "C16_consistent_pair", "C16_sign_sees_one_load", "C16_torn_skeleton_refuted",
+                 "C16_conc_token_of_own_section", "C16_conc_hit_same_state", "C16_conc_invariant",
+                 "C16_conc_rejected_reloads_unobservable", "C16_conc_sequential_is_exec", "C16_conc_nonvacuous",
+                 "C16_conc_F2_pinned_refuted", "C16_conc_return_after_reload"],
     "streams": [{
         "name": "histories", "pkg": _PKG, "test": "TestVerifC16",
         "overlay": _OVERLAY, "eval_module": "Run.Eval_C16", "check_term": _CHECK,
@@ -40,6 +45,14 @@ P = {
         "overlay": _OVERLAY, "eval_module": "Run.Eval_C16", "check_term": "check_race", "race": True,
         "n_quick": 1, "n_thorough": 1, "findings": {}, "escalate": False,
         "env": {"VERIF_C16_RACE_MS": 1500, "VERIF_C16_RACE_CACHE": 1 if _FIXED_F2 else 0},
+    }, {
+        "name": "exec-skeleton", "pkg": _PKG, "test": "TestVerifC16ExecSkel",
+        "overlay": _OVERLAY, "eval_module": "Run.Eval_C16Conc", "check_term": "check_xskel " + _FX,
+        "n_quick": 1, "n_thorough": 1, "findings": {}, "escalate": False,
+    }, {
+        "name": "conc", "pkg": _PKG, "test": "TestVerifC16Conc",
+        "overlay": _OVERLAY, "eval_module": "Run.Eval_C16Conc", "check_term": "check_conc " + _FX,
+        "n_quick": 150, "n_thorough": 4000, "findings": {}, "shard": 50,
     }],
     "rule": "histories: a jwt finalizer configuration (key_id absent / an existing id / a near miss (prefix, suffix, other case) / unknown; "
             "signer name; ttl incl. fractional, around the 5s cache leeway and invalid; claims template of 0-4 members, 55% of them "
